@@ -32,6 +32,7 @@ ASSUMPTIONS = [
 ]
 
 SEL = G.CallN("fa", None, (G.Cap("w", "b0", None, None, "=", 0), G.Cap("u", "b1", None, None, "=", 1)), ())
+SEL2 = G.CallN("fb", None, (G.Cap("u", "b1", None, None, "=", 1),), ())  # optional second selector of the root probe
 BG = G.CallN("fa", None, (G.Cap("u", "z0", None, None, "=", 1),), ())
 
 NONRED = ["accum", "getitem", "map", "filter"]
@@ -109,6 +110,25 @@ class Sim:
         self.cm = None
         self.flags = set()
         self.how = None
+        self.sels = [SEL]
+        self.raised_completion = False
+
+    def events_of(self, trace, before_t=None):
+        timed = []
+        for sel in self.sels:
+            timed += [(t, g) for t, g in M.immediate_events(sel, trace, with_time=True)]
+        timed.sort(key=lambda tg: tg[0])
+        return [e for t, g in timed if before_t is None or t < before_t for e in g]
+
+    def op_root(self, n):
+        """Rebuild the root probe with n selectors (only as the very first operation)."""
+        from ptera.probe import Probe
+
+        if self.phase != "new" or self.sinks or n != 2:
+            return
+        self.sels = [SEL, SEL2]
+        self.probe = Probe(G.canonical(SEL), G.canonical(SEL2), env=self.env)
+        self.flags.add("two-selectors")
 
     def apply(self, op):
         self.history.append(op)
@@ -150,9 +170,7 @@ class Sim:
     def op_deactivate(self, by_exc):
         if self.phase != "active":
             return
-        if self.empty_strict():
-            self.flags.add("skipped-empty-strict")
-            return
+        expect_raise = self.empty_strict()
         try:
             if self.how == "values":
                 if by_exc:
@@ -167,12 +185,18 @@ class Sim:
             else:
                 self.probe.deactivate()
         except BaseException as e:
-            raise PropertyViolation("deactivate", f"deactivation raised {HY.describe_exc(e)}",
-                                    extra={"bucket": "deactivate:" + HY.exc_bucket(e)})
+            if not (expect_raise and type(e).__name__ == "SequenceContainsNoElementsError"):
+                raise PropertyViolation("deactivate", f"deactivation raised {HY.describe_exc(e)}",
+                                        extra={"bucket": "deactivate:" + HY.exc_bucket(e)})
+            # a strict reducer that saw nothing raises at completion (giving's contract): the
+            # deactivation itself still happened; which of the other stages were completed
+            # before the error is not stated - but none may ever receive another event
+            self.raised_completion = True
+            self.flags.add("completion-raised")
         self.phase = "done"
         for s in self.sinks:
             if s["live"]:
-                s["completed"] = True
+                s["completed"] = "maybe" if self.raised_completion else True
 
     def op_reactivate(self):
         before = self.snapshot()
@@ -228,9 +252,58 @@ class Sim:
             self.bg.__exit__(None, None, None)
             self.bg = None
 
+    def op_incall(self, roots, k, by_exc):
+        """A call during which the probe is deactivated from *inside* the k-th activation (before
+        that activation's later bindings): the frames that are still running stay instrumented,
+        but nothing they bind afterwards may reach the pipeline."""
+        if self.phase != "active":
+            return self.op_call(roots)
+        roots = copy.deepcopy(roots)
+        nodes = []
+
+        def walk(n):
+            nodes.append(n)
+            for c in n["pre"] + n["post"]:
+                walk(c)
+
+        for r in roots:
+            walk(r)
+        host = nodes[k % len(nodes)]
+        cb = {"id": 990, "fn": "cb", "u0": 9901, "w0": 9905, "ru": None, "rw": None, "pre": [], "post": [],
+              "via": False, "catch": False, "raises": False, "ret": 9909}
+        host["pre"].insert(0, cb)
+        trace = M.simulate(roots)
+        # (the host may never run: an earlier activation raised)
+        t_cb = next((b.t for b in trace.binds if b.act.fn == "cb"), None)
+        ev = self.events_of(trace, before_t=t_cb)
+        self.delivered.extend(ev)
+        if ev:
+            self.flags.add("events-inside")
+        if len(self.events_of(trace)) > len(ev):
+            self.flags.add("events-outside")
+            self.flags.add("frames-outlive-deactivation")
+        if self.bg is not None:
+            self.bg_expected.extend(e for g in M.immediate_events(BG, trace) for e in g)
+        err = []
+
+        def cb_fn(node):
+            try:
+                self.op_deactivate(by_exc)
+            except BaseException as e:  # noqa
+                err.append(e)
+            return node["ret"]
+
+        F.DISPATCH["cb"] = cb_fn
+        try:
+            F.drive(roots)
+        finally:
+            F.DISPATCH.pop("cb", None)
+        if err:
+            raise err[0]
+
     def op_call(self, roots):
         trace = M.simulate(roots)
-        ev = [e for g in M.immediate_events(SEL, trace) for e in g]
+        ev = self.events_of(trace)
         if self.phase == "active":
             self.delivered.extend(ev)
             if ev:
@@ -255,8 +328,17 @@ class Sim:
     def check(self):
         for i, s in enumerate(self.sinks):
             evs = self.delivered[s["start"]:] if s["live"] else []
-            want = ref_stage(s["kind"], evs, s.get("completed", False) or s.get("late_completed", False))
             got = list(s["sink"])
+            if s.get("completed") == "maybe" and s["kind"] in RED:
+                # completion interrupted by a raising reducer: published its one result, or nothing
+                strict_empty = s["kind"] in STRICT and not evs
+                ok = got == [] or (not strict_empty and got == ref_stage(s["kind"], evs, True))
+                if not ok:
+                    raise PropertyViolation(
+                        "sink", f"stage #{i} {s['kind']} after a deactivation whose completion raised: got {got!r}, "
+                                f"expected [] or the single result over {evs!r}")
+                continue
+            want = ref_stage(s["kind"], evs, s.get("completed", False) or s.get("late_completed", False))
             if got != want:
                 raise PropertyViolation(
                     "sink",
@@ -384,6 +466,16 @@ def make_machine(rec):
         def call(self, roots):
             self._do(("call", roots))
 
+        @precondition(lambda self: self.sim.phase == "new" and not self.sim.sinks and not self.sim.history)
+        @rule()
+        def two_selectors(self):
+            self._do(("root", 2))
+
+        @precondition(lambda self: self.sim.phase == "active")
+        @rule(roots=plans, k=st.integers(0, 5), by_exc=st.booleans())
+        def incall(self, roots, k, by_exc):
+            self._do(("incall", roots, k, by_exc))
+
         def teardown(self):
             sim = self.sim
             if not self.dead:
@@ -402,6 +494,8 @@ def _brief(op):
 
     if op[0] == "call":
         return ["call", T.plan_brief(op[1])]
+    if op[0] == "incall":
+        return ["incall", T.plan_brief(op[1]), op[2], op[3]]
     return list(op)
 
 
